@@ -1,7 +1,7 @@
 """C15 Range responses contain exactly the requested bytes — E3, bounded input product.
 
 Object size x list of byte-range-specs (all ordered lists up to a length over a small alphabet) x
-state {cached (hit), uncached (origin answers 200 ignoring Range), [thorough] origin answers 206}.
+state {cached (hit), uncached (range_offset_limit none: Squid cuts the ranges out of the origin's 200), [thorough] Range forwarded, origin answers 200 / 206 / 416}.
 The client response is parsed by an independent single-part / multipart/byteranges parser and compared
 with the origin's object (position-dependent body pattern) and an RFC 9110 section 14 reference
 evaluation of the Range header.
